@@ -231,6 +231,25 @@ Theorem C20_denoise_identity :
 Proof. exact denoise_n_identity. Qed.
 Print Assumptions C20_denoise_identity.
 
+(* voltage.svd_denoise_npx (per-collection wrapper, _svd_denoise abstract): the wrapper returns its input
+   whenever the reconstruction of every collection does; a requested rank >= nc gives every collection
+   at least its full size as rank; the collections partition the traces. *)
+Theorem C20_svd_npx_identity :
+  forall (A : Type) (d : A) (f : Z -> list A -> list A) (data : list A) (coll : list Z) (rank : Z),
+  length data = length coll ->
+  (forall g, In g coll ->
+     let rows := select coll data g in
+     f (svd_rank rank (Z.of_nat (length coll)) (Z.of_nat (length rows))) rows = rows) ->
+  svd_npx d f data coll rank = data /\
+  zsum (map (fun g => Z.of_nat (length (fst g))) (svd_groups coll rank)) = Z.of_nat (length coll) /\
+  (forall size, 0 < Z.of_nat (length coll) -> 0 <= size -> Z.of_nat (length coll) <= rank ->
+     size <= svd_rank rank (Z.of_nat (length coll)) size).
+Proof.
+  intros A d f data coll rank Hl Hf. split; [now apply svd_npx_identity|].
+  split; [apply svd_groups_partition | intros; now apply svd_rank_full].
+Qed.
+Print Assumptions C20_svd_npx_identity.
+
 (* a single plane wave A u^i v^j on a complete regular grid fills the block trajectory
    matrix with an outer product f(row) * g(column): rank one. *)
 Theorem C20_plane_wave_rank1 :
